@@ -587,7 +587,7 @@ def main() -> int:
     print(f"VERIF_SEED={vseed} property={PROP} tier={args.tier} tree={core.src_dir()} workers={core.workers()}")
     pool = runner.build_pool_isolated()
     runner.WARM_BATTERY[:] = runner.default_warm_battery(pool)
-    nruns = args.runs if args.runs is not None else (4000 if args.tier == "quick" else 1_000_000)
+    nruns = args.runs if args.runs is not None else int(os.environ.get("VERIF_RUNS") or (4000 if args.tier == "quick" else 150_000))
     tasks = []
     pairs = [] if args.no_sweep else sweep_pairs(pool)
     for i, pair in enumerate(pairs):
